@@ -2,6 +2,7 @@
 package c02
 
 import (
+	"bytes"
 	"fmt"
 	"sort"
 	"strings"
@@ -291,7 +292,7 @@ func (c *ctl) ackAltered(t *rapid.T) {
 	catalogue := []string{"pkt.src", "pkt.dst", "pkt.seq", "pkt.sender", "pkt.transfer", "pkt.calldata", "pkt.callback", "pkt.feeoption", "pkt.swap", "pkt.reencode",
 		"proof.flip", "proof.truncate", "proof.extend", "proof.empty", "proof.otherseq", "proof.otherpath",
 		"height.other", "height.unstored", "height.above", "height.zero",
-		"ack.code", "ack.result", "ack.message", "ack.relayer", "ack.feeoption", "ack.swap", "ack.empty"}
+		"ack.code", "ack.result", "ack.message", "ack.relayer", "ack.feeoption", "ack.swap", "ack.empty", "ack.noncanonical", "ack.noncanonical"}
 	var applied []string
 	for i := 0; i < k; i++ {
 		a := rapid.SampledFrom(catalogue).Draw(t, "alteration")
@@ -309,6 +310,12 @@ func (c *ctl) ackAltered(t *rapid.T) {
 			msg.ProofHeight = bridge.H(msg.ProofHeight.RevisionNumber, uint64(w.Chains[p.SrcIdx].ClientHeight(dst.ChainID)+1))
 		case a == "height.zero":
 			msg.ProofHeight = bridge.H(0, 0)
+		case a == "ack.noncanonical":
+			// other BYTES that still decode to the same acknowledgement (trailing data, dirty high bytes of a number word,
+			// dirty padding): the counterparty stored the hash of its own bytes, not of these
+			if twins := ackTwins(msg.Acknowledgement); len(twins) > 0 {
+				msg.Acknowledgement = twins[rapid.IntRange(0, len(twins)-1).Draw(t, "twin")]
+			}
 		case strings.HasPrefix(a, "ack."):
 			var ack packettypes.Acknowledgement
 			if err := ack.ABIDecode(msg.Acknowledgement); err != nil {
@@ -361,6 +368,35 @@ func (c *ctl) ackAltered(t *rapid.T) {
 		m.Accepted++
 	}, false)
 	m.Log("ackAltered", fmt.Sprintf("%s %v", p.T, applied), fmt.Sprintf("ref=%v ok=%v", refErr == nil, o.Res.OK()))
+}
+
+// ackTwins lists byte strings different from bz that the repository's decoder maps to the same acknowledgement value.
+func ackTwins(bz []byte) [][]byte {
+	var want packettypes.Acknowledgement
+	if err := want.ABIDecode(bz); err != nil {
+		return nil
+	}
+	same := func(c []byte) bool {
+		var got packettypes.Acknowledgement
+		if err := got.ABIDecode(c); err != nil {
+			return false
+		}
+		return got.Code == want.Code && bytes.Equal(got.Result, want.Result) && got.Message == want.Message && got.Relayer == want.Relayer && got.FeeOption == want.FeeOption
+	}
+	var out [][]byte
+	for _, tail := range [][]byte{{1}, make([]byte, 32), bytes.Repeat([]byte{0xff}, 64)} {
+		if c := append(append([]byte{}, bz...), tail...); same(c) {
+			out = append(out, c)
+		}
+	}
+	for i := range bz {
+		c := append([]byte{}, bz...)
+		c[i] ^= 0x80
+		if same(c) {
+			out = append(out, c)
+		}
+	}
+	return out
 }
 
 func run(t *rapid.T, r *rec.Recorder) {
